@@ -35,8 +35,21 @@ def unitary(rng, n, complex_):
 @st.composite
 def sort_cases(draw):
     n = draw(st.integers(2, 60))
-    return {"n": n, "complex": draw(st.booleans()), "seed": draw(st.integers(0, 2 ** 32 - 1)),
-            "perm": list(draw(st.permutations(list(range(n))))), "eps": draw(st.sampled_from([0.0, 0.01, 0.05])),
+    kind = draw(st.sampled_from(["random", "random", "transposition", "3-cycle", "identity"]))
+    if kind == "random":
+        perm = list(draw(st.permutations(list(range(n)))))
+    else:
+        # mode crossings: a near-identity permutation in a (possibly large) basis
+        perm = list(range(n))
+        if kind == "transposition" and n >= 2:
+            i = draw(st.integers(0, n - 2))
+            j = draw(st.integers(i + 1, n - 1))
+            perm[i], perm[j] = perm[j], perm[i]
+        elif kind == "3-cycle" and n >= 3:
+            i, j, k = sorted(draw(st.lists(st.integers(0, n - 1), min_size=3, max_size=3, unique=True)))
+            perm[i], perm[j], perm[k] = perm[j], perm[k], perm[i]
+    return {"n": n, "complex": draw(st.booleans()), "seed": draw(st.integers(0, 2 ** 32 - 1)), "perm_kind": kind,
+            "perm": perm, "eps": draw(st.sampled_from([0.0, 0.01, 0.05])),
             "containers": draw(st.sampled_from(["list", "tuple"]))}
 
 
@@ -80,7 +93,7 @@ def sub_sort(ctx):
         sort_oracle(ctx, c)
         ident = c["perm"] == list(range(c["n"]))
         ctx.case(dict(c, perm=c["perm"][:8]), (not ident) and (not c["complex"] or c["n"] >= 10),
-                 classes=["sort", "complex" if c["complex"] else "real", "eps=%g" % c["eps"]], key=c)
+                 classes=["sort", "complex" if c["complex"] else "real", "eps=%g" % c["eps"], "perm-" + c.get("perm_kind", "random")], key=c)
 
     ctx.run_given(body, sort_cases(), max_examples=ctx.n(600, 20000))
 
@@ -90,7 +103,9 @@ def sub_sort(ctx):
 def conv_cases(draw):
     na = draw(st.integers(1, 20))
     return {"na": na, "complex": draw(st.booleans()), "seed": draw(st.integers(0, 2 ** 32 - 1)),
-            "rows": draw(st.sampled_from(["all", "some", "one"]))}
+            "rows": draw(st.sampled_from(["all", "some", "one"])),
+            # any positive masses (amu, kg, ...) and displacement vectors of arbitrary norm
+            "mass_unit": draw(st.sampled_from([1.0, 1.0, 1.66e-27, 1e-3, 1e6])), "amp": draw(st.sampled_from([1.0, 1e-10, 1e-6, 1e8]))}
 
 
 def conv_oracle(ctx, c):
@@ -103,8 +118,8 @@ def conv_oracle(ctx, c):
         E = E[: max(1, n // 2)]
     elif c["rows"] == "one":
         E = E[:1]
-    masses = rng.uniform(1.0, 250.0, na)
-    scales = 10.0 ** rng.uniform(-3, 3, E.shape[0])
+    masses = rng.uniform(1.0, 250.0, na) * c.get("mass_unit", 1.0)
+    scales = 10.0 ** rng.uniform(-3, 3, E.shape[0]) * c.get("amp", 1.0)
     m3 = np.repeat(masses, 3)
     disp = E / np.sqrt(m3)[None, :] * scales[:, None]   # displacement vectors of arbitrary norm
     disp0 = disp.copy()
@@ -135,7 +150,8 @@ def conv_oracle(ctx, c):
 def sub_conversion(ctx):
     def body(c):
         conv_oracle(ctx, c)
-        ctx.case(c, c["complex"] and 3 * c["na"] >= 10, classes=["conversion", "complex" if c["complex"] else "real", "rows-" + c["rows"]])
+        ctx.case(c, c["complex"] and 3 * c["na"] >= 10, classes=["conversion", "complex" if c["complex"] else "real", "rows-" + c["rows"],
+                                                                   "mass-unit=%g" % c.get("mass_unit", 1.0), "amplitude=%g" % c.get("amp", 1.0)])
 
     ctx.run_given(body, conv_cases(), max_examples=ctx.n(300, 20000))
 
